@@ -360,6 +360,10 @@ func UpdateDescription(name, etag string, desc *Description) error {
 	if desc.Users != nil || desc.WildcardUser != nil || desc.AuthKeys != nil {
 		return errors.New("description is not sanitised")
 	}
+	if desc.Op != nil || desc.Presenter != nil || desc.Other != nil {
+		// obsolete ways of specifying users
+		return errors.New("description is not sanitised")
+	}
 
 	groups.mu.Lock()
 	defer groups.mu.Unlock()
